@@ -362,6 +362,34 @@ func runC19(c *core.Ctx) {
 				})
 			}
 		}
+		// no narrowing of a size inside the size-class arithmetic (sizes range up to the platform limit)
+		for _, f := range p.Funcs {
+			if p.PkgRel(f) != "utils/pool/internal/pmath" && p.PkgRel(f) != "utils/pool" {
+				continue
+			}
+			core.AllInstrs(f, func(in ssa.Instruction) {
+				cv, ok := in.(*ssa.Convert)
+				if !ok {
+					return
+				}
+				tb, sb := intBits(cv.Type()), intBits(cv.X.Type())
+				if tb == 0 || sb == 0 || signedness(cv.Type()) == 0 || signedness(cv.X.Type()) == 0 {
+					return
+				}
+				if _, isConst := cv.X.(*ssa.Const); isConst {
+					return
+				}
+				if b, ok := cv.Type().Underlying().(*types.Basic); ok && (b.Kind() == types.Int || b.Kind() == types.Uint || b.Kind() == types.Uintptr) {
+					if tb >= sb {
+						return
+					}
+				}
+				if tb < sb || (tb == sb && tb < 64) {
+					c.Instance("R5")
+					c.Bad("R5", "pmath/narrowing/"+core.FName(f), p.InstrPos(in), "a size is narrowed to "+cv.Type().String()+" inside the size-class arithmetic: sizes above that width wrap (ceil/floor/shard index disagree for large requests)")
+				}
+			})
+		}
 		switch {
 		case usesBits:
 			c.OK("R5", "pmath/bit-fill", "", "power-of-two helpers rest on math/bits")
